@@ -19,7 +19,7 @@ NREGS = ["NsN", "NtN"]
 EXPLICIT = ["P0", "P1", "P2", "P3", "R31", "R0", "P3_NEW", "P0_NEW", "R31_NEW"]
 ALIASES = ["HEX_REG_ALIAS_USR", "HEX_REG_ALIAS_PC", "HEX_REG_ALIAS_SP", "HEX_REG_ALIAS_LR", "HEX_REG_ALIAS_GP",
            "HEX_REG_ALIAS_LC0", "HEX_REG_ALIAS_SA0", "HEX_REG_ALIAS_UPCYCLE", "HEX_REG_ALIAS_P3_0_NEW", "HEX_REG_ALIAS_USR_NEW"]
-IMMS = ["siV", "riV", "uiV", "UiV", "SiV", "RiV", "mV", "nV"]
+IMMS = ["siV", "riV", "uiV", "UiV", "SiV", "RiV", "miV", "niV"]
 ARITH = ["+", "-", "*"]
 BITS = ["&", "|", "^"]
 SHIFTS = ["<<", ">>"]
